@@ -138,6 +138,8 @@ def run(chk, replay=None):
         chk.violation("C04:mpi", trace, "event %d rejected by Trace_C04: %s in run %s" % (matched + 1, str(bad)[:300], str(ctx)[:400]))
     if ok and not replay:
         ok = mpicommon.big_leg(chk, "C04:mpi")
+    if ok and thorough and not replay:
+        ok = mpicommon.ndebug_leg(chk, "C04:mpi")
     if ok and not replay:
         real_mpi(chk, (1, 2, 3, 5) if thorough else (2,))
     if thorough and ok and not replay:
